@@ -37,7 +37,8 @@ Definition ginv (s : state) : Prop :=
   (conce s = ODone -> fin s = true) /\
   (conce s = ORunning -> 1 <= ncanc s) /\
   (fin s = false -> dl (c s) + remw (r s) <= 2) /\
-  forallb wnowait (ws s) = true.
+  forallb wnowait (ws s) = true /\
+  (wrote s = true -> fpanic s <> None).
 
 Lemma live_beh : forall cf i, live_cfg cf -> forallb notwait (beh cf i) = true.
 Proof.
@@ -64,11 +65,286 @@ Proof.
   intros cf s l s' Hc I H.
   pose proof (fun i => live_beh cf i Hc) as Hbeh.
   unfold ginv, ncanc in *.
-  destruct I as (I1 & I2 & I3 & I4 & I5 & I6 & I7 & I8 & I9).
+  destruct I as (I1 & I2 & I3 & I4 & I5 & I6 & I7 & I8 & I9 & I10).
   destruct l; simpl in H; unf_step H; unfold r_next in H.
   all: inv_step H.
   all: nth_nowait.
   all: simpl in *; try discriminate.
   all: repeat (apply conj); try assumption; try reflexivity; try (intros; congruence).
-  all: idtac. Show.
-Admitted.
+  all: try (apply forallb_upd; [assumption | unfold wnowait; simpl; assumption || reflexivity]).
+  all: try (rewrite forallb_app; simpl; unfold wnowait at 2; simpl; rewrite I9, Hbeh; reflexivity).
+  all: try rewrite filter_len_app.
+  all: use_upd.
+  all: rw_eqs; unfold w_incancel in *; simpl in *; intros;
+       repeat match goal with Hi : ?a = ?a -> _ |- _ => specialize (Hi eq_refl) end;
+       repeat match goal with Hi : ?P -> _, Hp : ?P |- _ => specialize (Hi Hp) end;
+       try assumption; try congruence; try lia.
+Qed.
+
+Lemma ginv_reach : forall cf s, live_cfg cf -> reachable cf s -> ginv s.
+Proof.
+  intros cf s Hc. revert s. apply reachable_ind'.
+  - apply ginv_init; auto.
+  - intros s l s' _ I H. eapply ginv_step; eauto.
+Qed.
+
+(* ------------------------------------------------------------------ *)
+(* who can move                                                        *)
+(* ------------------------------------------------------------------ *)
+Definition can_move (cf : cfg) (s : state) : Prop :=
+  exists l, l <> LEnv /\ exists s', step cf s l = Some s'.
+
+Lemma filter_nth : forall {A} (f : A -> bool) l,
+  1 <= List.length (filter f l) -> exists i w, nth_error l i = Some w /\ f w = true.
+Proof.
+  intros A f. induction l as [|h t IH]; simpl; intro H; [lia|].
+  destruct (f h) eqn:Eh.
+  - exists 0, h. auto.
+  - destruct (IH H) as (i & w & Hn & Hw). exists (S i), w. auto.
+Qed.
+
+Lemma existsb_nth : forall {A} (f : A -> bool) l i w,
+  nth_error l i = Some w -> f w = true -> existsb f l = true.
+Proof.
+  intros A f. induction l as [|h t IH]; intros [|i] w H E; simpl in *; try discriminate.
+  - inversion H; subst. rewrite E. reflexivity.
+  - rewrite (IH _ _ H E). apply orb_true_r.
+Qed.
+
+(* somebody sits in drain(source) and the source is still open: the generator moves *)
+Lemma g_unblocks_drain : forall cf s,
+  srcc s = gdone (g s) -> srcc s = false -> someone_drains s = true -> can_move cf s.
+Proof.
+  intros cf s I1 Hs Hd. rewrite Hs in I1.
+  destruct (g s) as [[|i rest]| | |] eqn:Eg; simpl in I1; try discriminate.
+  - enabled LG. unfold step_g. rewrite Eg. eauto.
+  - enabled LGSendK. unfold step_gsk. rewrite Eg, Hd. eauto.
+  - enabled LG. unfold step_g. rewrite Eg. eauto.
+  - enabled LG. unfold step_g. rewrite Eg. eauto.
+Qed.
+
+Lemma w_drainfin_progress : forall cf s j it k e a,
+  srcc s = gdone (g s) -> nth_error (ws s) j = Some (it, WCancel k e a) -> k <> CcEnter -> can_move cf s.
+Proof.
+  intros cf s j it k e a I1 En Hk. destruct k; try congruence.
+  - destruct (srcc s) eqn:Hs.
+    + enabled (LW j). unfold step_w. rewrite En, Hs. eauto.
+    + apply g_unblocks_drain; [congruence | assumption |]. unfold someone_drains.
+      rewrite (existsb_nth w_draining _ _ _ En eq_refl). reflexivity.
+  - enabled (LW j). unfold step_w. rewrite En. eauto.
+Qed.
+
+Lemma c_drainfin_progress : forall cf s k,
+  srcc s = gdone (g s) -> c s = CCancel k -> k <> CcEnter -> can_move cf s.
+Proof.
+  intros cf s k I1 Ec Hk. destruct k; try congruence.
+  - destruct (srcc s) eqn:Hs.
+    + enabled LC. unfold step_c. rewrite Ec, Hs. eauto.
+    + apply g_unblocks_drain; [congruence | assumption |]. unfold someone_drains. rewrite Ec. apply orb_true_r.
+  - enabled LC. unfold step_c. rewrite Ec. eauto.
+Qed.
+
+(* the once is running: the thread inside it moves (or the generator feeds its drain) *)
+Lemma canceller_progress : forall cf s, ginv s -> conce s = ORunning -> can_move cf s.
+Proof.
+  intros cf s I Ho. destruct I as (I1 & _ & _ & _ & _ & _ & I7 & _).
+  specialize (I7 Ho). unfold ncanc in I7.
+  destruct (c_incancel (c s)) eqn:Ec.
+  - destruct (c s) as [| |k| | |] eqn:Ec'; simpl in Ec; try discriminate.
+    apply (c_drainfin_progress cf s k); auto. intro; subst; discriminate.
+  - destruct (filter_nth w_incancel (ws s)) as (j & [it p] & En & Hw); [lia|].
+    unfold w_incancel in Hw. simpl in Hw. destruct p as [| |k e a| | |]; try discriminate.
+    apply (w_drainfin_progress cf s j it k e a); auto. intro; subst; discriminate.
+Qed.
+
+Lemma c_cancel_progress : forall cf s k, ginv s -> c s = CCancel k -> can_move cf s.
+Proof.
+  intros cf s k I Ec. pose proof I as (I1 & _).
+  destruct k.
+  - destruct (conce s) eqn:Eo.
+    + enabled LC. unfold step_c, cancel_enter. rewrite Ec, Eo. eauto.
+    + apply canceller_progress; auto.
+    + enabled LC. unfold step_c, cancel_enter. rewrite Ec, Eo. eauto.
+  - apply (c_drainfin_progress cf s CcDrain); auto. discriminate.
+  - apply (c_drainfin_progress cf s CcFin); auto. discriminate.
+Qed.
+
+Lemma cout_progress : forall cf s got, ginv s -> c s = COut got -> can_move cf s.
+Proof.
+  intros cf s got I Ec. destruct I as (_ & _ & _ & _ & _ & _ & _ & _ & _ & I10).
+  enabled LC. unfold step_c. rewrite Ec. destruct (wrote s).
+  - destruct (fpanic s); [eauto|]. exfalso. apply I10; auto.
+  - eauto.
+Qed.
+
+(* the reducer blocked in `output <- v`: the send panics (closed), or the caller takes / will take it *)
+Lemma rsend_progress : forall cf s k a, ginv s -> r s = RSend k a -> can_move cf s.
+Proof.
+  intros cf s k a I Er. pose proof I as (_ & _ & _ & _ & _ & _ & _ & I8 & _).
+  destruct (fin s) eqn:Ef.
+  - enabled LR. unfold step_r. rewrite Er, Ef. eauto.
+  - destruct (c s) eqn:Ec.
+    + enabled LCOut. unfold step_cout. rewrite Ec, Ef, Er. eauto.
+    + eapply cout_progress; eauto.
+    + eapply c_cancel_progress; eauto.
+    + enabled LC. unfold step_c. rewrite Ec, Ef, Er. eauto.
+    + enabled LC. unfold step_c. rewrite Ec, Ef, Er. eauto.
+    + specialize (I8 eq_refl). rewrite Er in I8. simpl in I8. lia.
+Qed.
+
+(* the reducer can always take from a non-empty or closed collector *)
+Lemma r_progress_g : forall cf s,
+  ginv s -> (coll s <> [] \/ collc s = true) -> r s <> RDone -> can_move cf s.
+Proof.
+  intros cf s I Hc Hr.
+  destruct (r s) eqn:Er; try congruence.
+  - enabled LR. unfold step_r. rewrite Er.
+    destruct (coll s); [destruct Hc as [Hc|Hc]; [congruence | rewrite Hc]|]; eauto.
+  - enabled LR. unfold step_r. rewrite Er.
+    destruct acts as [|[] a]; eauto. destruct (ctxd s || fin s); eauto.
+  - eapply rsend_progress; eauto.
+  - enabled LR. unfold step_r. rewrite Er.
+    destruct (coll s); [destruct Hc as [Hc|Hc]; [congruence | rewrite Hc]|]; eauto.
+  - enabled LR. unfold step_r. rewrite Er. eauto.
+  - enabled LR. unfold step_r. rewrite Er. eauto.
+Qed.
+
+(* a mapper goroutine that has not exited: it moves, or whoever it waits for moves *)
+Lemma w_progress : forall cf s i it p,
+  1 <= workers cf -> ginv s -> nth_error (ws s) i = Some (it, p) -> p <> WExit -> can_move cf s.
+Proof.
+  intros cf s i it p Hw I En Hne.
+  pose proof I as (I1 & _ & _ & I4 & _ & _ & _ & _ & I9 & _).
+  pose proof (forallb_nth _ _ _ _ I9 En) as K. unfold wnowait in K. simpl in K.
+  destruct p as [acts|v acts|k e acts|pv| |]; try congruence.
+  - enabled (LW i). unfold step_w. rewrite En.
+    destruct acts as [|[] a]; simpl in K; try discriminate; eauto.
+    destruct (ctxd s || fin s); eauto.
+  - destruct (collc s) eqn:Hcl.
+    { enabled (LW i). unfold step_w. rewrite En, Hcl. eauto. }
+    destruct (List.length (coll s) <? workers cf) eqn:El.
+    { enabled (LW i). unfold step_w. rewrite En, Hcl, El. eauto. }
+    apply Nat.ltb_ge in El.
+    apply r_progress_g; auto.
+    + left. intro Hnil. rewrite Hnil in El. simpl in El. lia.
+    + intro Hr. rewrite Hr in I4. specialize (I4 eq_refl). congruence.
+  - destruct k.
+    + destruct (conce s) eqn:Eo.
+      * enabled (LW i). unfold step_w, cancel_enter. rewrite En, Eo. eauto.
+      * apply canceller_progress; auto.
+      * enabled (LW i). unfold step_w, cancel_enter. rewrite En, Eo. eauto.
+    + apply (w_drainfin_progress cf s i it CcDrain e acts); auto. discriminate.
+    + apply (w_drainfin_progress cf s i it CcFin e acts); auto. discriminate.
+  - enabled (LW i). unfold step_w. rewrite En. eauto.
+  - enabled (LW i). unfold step_w. rewrite En. eauto.
+Qed.
+
+(* ------------------------------------------------------------------ *)
+(* F1: general stuck-freedom                                           *)
+(* ------------------------------------------------------------------ *)
+Theorem no_stuck : forall cf s,
+  live_cfg cf -> reachable cf s -> final s = false ->
+  exists l, l <> LEnv /\ exists s', step cf s l = Some s'.
+Proof.
+  intros cf s Hc R Hfin. change (can_move cf s).
+  pose proof (ginv_reach cf s Hc R) as I.
+  pose proof (inv_pool_reach cf s R) as [P1 P2].
+  pose proof I as (I1 & I2 & I3 & I4 & I5 & I6 & I7 & I8 & I9 & I10).
+  destruct Hc as (Hw & _).
+  destruct (forallb w_exited (ws s)) eqn:Hex.
+  - assert (Hp : x s = XSel -> (pool s <? workers cf) = true).
+    { intro Ex. rewrite Ex in P1. rewrite (all_exited_filter _ Hex) in P1. simpl in P1.
+      apply Nat.ltb_lt. lia. }
+    destruct (g s) as [[|i rest]| | |] eqn:Eg; simpl in *.
+    + enabled LG. unfold step_g. rewrite Eg. eauto.
+    + destruct (x s) eqn:Ex; simpl in *.
+      * enabled LX. unfold step_x. rewrite Ex. eauto.
+      * enabled LXAcq. unfold step_xacq. rewrite Ex, Hp; eauto.
+      * enabled LGSendX. unfold step_gsx. rewrite Eg, Ex. eauto.
+      * enabled LX. unfold step_x. rewrite Ex, Hex. eauto.
+      * enabled LGSendX. unfold step_gsx. rewrite Eg, Ex. eauto.
+      * specialize (I2 eq_refl). congruence.
+    + enabled LG. unfold step_g. rewrite Eg. eauto.
+    + enabled LG. unfold step_g. rewrite Eg. eauto.
+    + destruct (x s) eqn:Ex; simpl in *.
+      * enabled LX. unfold step_x. rewrite Ex. eauto.
+      * enabled LXAcq. unfold step_xacq. rewrite Ex, Hp; eauto.
+      * enabled LX. unfold step_x. rewrite Ex, I1. eauto.
+      * enabled LX. unfold step_x. rewrite Ex, Hex. eauto.
+      * enabled LX. unfold step_x. rewrite Ex, I1. eauto.
+      * destruct (rdone (r s)) eqn:Erd.
+        -- destruct (r s) eqn:Er; simpl in Erd; try discriminate. simpl in *.
+           specialize (I5 eq_refl).
+           destruct (c s) eqn:Ec.
+           ++ enabled LCOut. unfold step_cout. rewrite Ec, I5. eauto.
+           ++ eapply cout_progress; eauto.
+           ++ eapply c_cancel_progress; eauto.
+           ++ enabled LC. unfold step_c. rewrite Ec, I5. eauto.
+           ++ enabled LC. unfold step_c. rewrite Ec, I5. eauto.
+           ++ unfold final in Hfin. rewrite Eg, Ex, Er, Ec, Hex in Hfin. discriminate.
+        -- apply r_progress_g; auto. intro Hr. rewrite Hr in Erd. discriminate.
+  - destruct (forallb_false_nth _ _ Hex) as (i & [it p] & En & Hne).
+    apply (w_progress cf s i it p); auto.
+    intro Hp. subst p. unfold w_exited in Hne. simpl in Hne. discriminate.
+Qed.
+
+(* ------------------------------------------------------------------ *)
+(* F2: termination, F3: leak-freedom                                   *)
+(* ------------------------------------------------------------------ *)
+Lemma terminates_from_g : forall cf n s,
+  live_cfg cf -> reachable cf s -> measure cf s < n ->
+  exists ls s', ~ In LEnv ls /\ run cf s ls = Some s' /\ final s' = true.
+Proof.
+  intros cf n. induction n as [|n IH]; intros s Hc R Hm; [lia|].
+  destruct (final s) eqn:Hf.
+  - exists [], s. repeat split; auto.
+  - destruct (no_stuck cf s Hc R Hf) as (l & Hl & s1 & Hs).
+    pose proof (variant _ _ _ _ Hs) as Hv.
+    destruct (IH s1 Hc) as (ls & s' & He & Hr & Hfin).
+    + eapply reachable_step; eauto.
+    + lia.
+    + exists (l :: ls), s'. repeat split; auto.
+      * intros [Hin|Hin]; [congruence | exact (He Hin)].
+      * simpl. rewrite Hs. exact Hr.
+Qed.
+
+Theorem terminates : forall cf s,
+  live_cfg cf -> reachable cf s ->
+  exists ls s', ~ In LEnv ls /\ run cf s ls = Some s' /\ final s' = true.
+Proof.
+  intros cf s Hc R. eapply (terminates_from_g cf (S (measure cf s))); eauto.
+Qed.
+
+Theorem no_leak : forall cf s,
+  live_cfg cf -> reachable cf s ->
+  exists ls s', ~ In LEnv ls /\ run cf s ls = Some s' /\
+    g s' = GDone /\ x s' = XDone /\ r s' = RDone /\ forallb w_exited (ws s') = true /\
+    (exists o, c s' = CDone o) /\ running s' = 0.
+Proof.
+  intros cf s Hc R.
+  destruct (terminates cf s Hc R) as (ls & s' & He & Hr & Hf).
+  destruct (final_all_exited s' Hf) as (A & B & C & D & E).
+  exists ls, s'. repeat split; auto.
+  unfold running. fold nexited. rewrite (all_exited_filter _ D). reflexivity.
+Qed.
+
+(* a reachable state without any enabled non-environment step is final: every maximal schedule
+   (they are all finite by ProofsA.no_infinite_run) ends with all goroutines exited *)
+Theorem maximal_final : forall cf s,
+  live_cfg cf -> reachable cf s -> (forall l, l <> LEnv -> step cf s l = None) -> final s = true.
+Proof.
+  intros cf s Hc R Hmax. destruct (final s) eqn:Hf; auto.
+  destruct (no_stuck cf s Hc R Hf) as (l & Hl & s' & Hs).
+  rewrite (Hmax l Hl) in Hs. discriminate.
+Qed.
+
+(* a final state has no step at all except the environment's *)
+Lemma final_no_step : forall cf s l s', final s = true -> step cf s l = Some s' -> l = LEnv.
+Proof.
+  intros cf s l s' Hf H. destruct (final_all_exited s Hf) as (Eg & Ex & Er & Hex & o & Ec).
+  destruct l; auto; exfalso; simpl in H; unf_step H; unfold someone_drains in H;
+    rewrite ?Eg, ?Ex, ?Er, ?Ec in H; try discriminate.
+  destruct (nth_error (ws s) i) as [[it p]|] eqn:En; try discriminate.
+  pose proof (forallb_nth _ _ _ _ Hex En) as K. unfold w_exited in K. simpl in K.
+  destruct p; try discriminate.
+Qed.
